@@ -200,7 +200,7 @@ def run(case, ctx):
                 continue
             spn = [s for s in sp if s in cone]
             if not spn:
-                continue   # constant cone: 2**0 denominators are fine but uninteresting
+                ctx.probe("sigprob_constant_cone")   # no startpoint in the cone: the node is a constant, probability 0 or 1
             want_p = ref.popcount(tt_all[n]) / (1 << len(sp))
             got_p = ctx.call("C08.sigprob_raises", sig0, cg.props.signal_probability, c, n, approx=False)
             ctx.probe("sigprob")
